@@ -116,6 +116,12 @@ func newGen(seed uint64, tier, property, profile string) *gen {
 	g.weights[3] += 3 // PUT: keep trees alive
 	g.weights[5] += 2 // MKCOL
 	g.spellP = []float64{0, 0.1, 0.4}[g.r.Intn(3)]
+	if g.r.Chance(0.3) {
+		g.plan.Config.Host = rt.Pick(g.r, []string{"dav.test:8080", "localhost:8080", "[::1]:8080", "DAV.test", "dav.test:80"})
+	}
+	if g.r.Chance(0.3) {
+		g.plan.Config.RootForm = rt.Pick(g.r, []string{"slash", "dot", "double"})
+	}
 	g.maxSize = 64
 	if g.r.Chance(0.2) {
 		g.maxSize = 5000
@@ -274,6 +280,11 @@ func (g *gen) spell(p string) string {
 	}
 	segs := strings.Split(strings.TrimPrefix(p, "/"), "/")
 	var b strings.Builder
+	if vary && g.r.Chance(0.06) {
+		// more dot-dot segments than there is path: clamped at the root (RFC 3986
+		// 5.2.4); a server may also refuse it
+		b.WriteString(rt.Pick(g.r, []string{"/..", "/../..", "/zz/../.."}))
+	}
 	for _, s := range segs {
 		b.WriteByte('/')
 		if vary {
@@ -384,7 +395,11 @@ func (g *gen) destinationHeader(p string) (string, bool) {
 	case 0:
 		return sp, true
 	case 1:
-		return "http://dav.test" + sp, true
+		host := "dav.test"
+		if g.plan.Config.Host != "" {
+			host = g.plan.Config.Host
+		}
+		return "http://" + host + sp, true
 	case 2:
 		return "", false
 	case 3:
@@ -465,12 +480,16 @@ func (s *Step) set(name, value string) { s.Headers = append(s.Headers, [2]string
 // conforming server would.
 func (g *gen) commit(st *Step, hints map[string]string) {
 	g.plan.Steps = append(g.plan.Steps, *st)
+	planHost = "dav.test"
+	if g.plan.Config.Host != "" {
+		planHost = g.plan.Config.Host
+	}
 	req, why := buildRequest(st)
 	if req == nil {
 		_ = why
 		return
 	}
-	mr := &model.Request{Method: req.Method, Path: req.URL.Path, H: headerMap(req), Body: st.Body, CondHint: hints}
+	mr := &model.Request{Method: req.Method, Path: req.URL.Path, Host: req.Host, H: headerMap(req), Body: st.Body, CondHint: hints}
 	for _, f := range st.Faults {
 		switch {
 		case f.Seam == "req-body" && f.Kind == "clean-eof":
@@ -529,6 +548,7 @@ func (g *gen) genRequest() *Step {
 		st := g.newStep("PUT", g.spell(p))
 		st.Body = g.content()
 		st.Chunk = g.chunk()
+		st.Chunked = g.r.Chance(0.2)
 		if g.r.Chance(0.3) {
 			st.set("Content-Type", rt.Pick(g.r, []string{"text/plain", "application/octet-stream"}))
 		}
@@ -629,6 +649,7 @@ func (g *gen) genRequest() *Step {
 			st.Body = body
 			st.set("Content-Type", ct)
 			st.Chunk = g.chunk()
+			st.Chunked = g.r.Chance(0.2)
 		}
 		return st
 	}
